@@ -29,7 +29,7 @@ KF_2T = "two_torsion_conflated_with_identity"
 def shards(tier, seed):
     q = tier == "quick"
     out = []
-    for c in lib.pick_curves(tier, seed, extra=3):
+    for c in lib.pick_curves(tier, seed, extra=12):
         out.append(("pairs_%s" % c.name, dict(kind="pairs", cname=c.name, npairs=4 if q else 30, lz=c.order.bit_length() <= 256 or not q)))
     out.append(("loaders", dict(kind="loaders", cnames=["NIST256p", "SECP112r2", "BRAINPOOLP160r1", "NIST521p"] if q else [c.name for c in lib.ALL_CURVES])))
     for i in range(2 if q else 12):
